@@ -80,7 +80,11 @@ impl Prechecker for DefaultPrechecker {
                 None
             }
             PrecheckData::NotCheck { pinned_or_king } => {
-                if !pinned_or_king.has(mv.src()) {
+                if mv.kind() == MoveKind::Enpassant {
+                    // Enpassant removes two pawns from the board at once, so it can open a line
+                    // to the king even if neither of the pawns is pinned. Let `Checker` decide.
+                    None
+                } else if !pinned_or_king.has(mv.src()) {
                     // The piece is not pinned and is not a king, so the move is definitely legal.
                     Some(true)
                 } else {
